@@ -62,6 +62,7 @@ fn main() {
         "stages" => probe::stages(&args),
         "golden" => probe::golden(&args),
         "hover" => probe::hover(&args),
+        "shrink" => probe::shrink(&args),
         other => {
             eprintln!("unknown subcommand {}", other);
             std::process::exit(2);
